@@ -31,8 +31,68 @@ from joblib import Memory  # noqa: E402
 from joblib.func_inspect import filter_args  # noqa: E402
 
 
+class EqAll(object):
+    """compares equal to everything (like unittest.mock.ANY)"""
+    def __eq__(self, other):
+        return True
+
+    def __ne__(self, other):
+        return False
+    __hash__ = object.__hash__
+
+
+class EqNone(object):
+    """compares unequal to everything, itself included"""
+    def __eq__(self, other):
+        return False
+
+    def __ne__(self, other):
+        return True
+    __hash__ = object.__hash__
+
+
+class CmpRaises(object):
+    def __eq__(self, other):
+        raise RuntimeError("comparison refused")
+
+    def __ne__(self, other):
+        raise RuntimeError("comparison refused")
+    __hash__ = object.__hash__
+
+
+class _Ambiguous(object):
+    def __bool__(self):
+        raise ValueError("The truth value of an array with more than one element is ambiguous")
+
+
+class CmpElementwise(object):
+    """comparisons return an object without a truth value (array-like)"""
+    def __eq__(self, other):
+        return _Ambiguous()
+
+    def __ne__(self, other):
+        return _Ambiguous()
+    __hash__ = object.__hash__
+
+
+ODD = {"eqall": EqAll(), "eqnone": EqNone(), "raises": CmpRaises(), "elementwise": CmpElementwise()}
+
+
+def is_literal(v):
+    (t, x), = v.items()
+    if t in ("o", "np"):
+        return False
+    if t in ("t", "l", "S", "F"):
+        return all(is_literal(e) for e in x)
+    if t == "d":
+        return all(is_literal(k) and is_literal(w) for k, w in x)
+    return True
+
+
 def dec(v):
     (t, x), = v.items()
+    if t == "o":
+        return ODD[x]
     if t == "i":
         return int(x)
     if t == "f":
@@ -72,6 +132,8 @@ def np_dtype(spec):
 def canon(v):
     """strict, order-insensitive text of a value: 1, 1.0 and True differ; dict/set order does not matter"""
     t = type(v).__name__
+    if t in ("EqAll", "EqNone", "CmpRaises", "CmpElementwise"):
+        return "odd:" + t          # never compared with ==
     if t == "ndarray":
         # dtype (fields, offsets, units), shape and element VALUES.  Byte order is normalised: joblib deliberately
         # returns cached arrays in native byte order (numpy_pickle _ensure_native_byte_order), values unchanged.
@@ -148,7 +210,9 @@ def source_for(sc, k):
                     not any(q[1] == "ko" for q in params[:i]):
                 parts.append("*")
             parts.append(name if default is None else
-                         ("%s=D[%r]" % (name, name) if factory else "%s=%r" % (name, dec(default))))
+                         ("%s=D[%r]" % (name, name) if factory else
+                          ("%s=%r" % (name, dec(default)) if is_literal(default) else
+                           "%s=_DEFAULTS[%r]" % (name, name))))
         if kind == "po":
             seen_po = True
             if sum(1 for p in params[:i + 1] if p[1] == "po") == n_po:
@@ -245,22 +309,35 @@ def ideal_filter_args(func, ignore, pos, kw):
     return out
 
 
+VALID = [True]
+
+
+class Validator(object):
+    """cache_validation_callback of every wrapper (picklable: the wrapper may travel through pickle)"""
+    def __call__(self, metadata):
+        return VALID[0]
+
+
 class _RawForm(Exception):
     pass
 
 
 def main():
     job = json.load(sys.stdin)
+    # joblib prints progress messages (verbose >= 1) on stdout: the results go to a private copy of fd 1
+    result_channel = os.fdopen(os.dup(1), "w")
+    os.dup2(2, 1)
+    sys.stdout = sys.stderr
     sc = job["scenario"]
     moddir = job["moddir"]
-    mem = Memory(job["cache"], verbose=0, compress=tuple(sc["compress"]) if isinstance(sc["compress"], list)
+    mem = Memory(job["cache"], verbose=sc.get("verbose", 0), mmap_mode=sc.get("mmap_mode"), compress=tuple(sc["compress"]) if isinstance(sc["compress"], list)
                  else sc["compress"])
     refs = []
     if os.path.exists(job["refs"]):
         with open(job["refs"], "rb") as fh:
             refs = pickle.load(fh)
     objs, plains, wraps, counts, bases = {}, {}, {}, {}, {}
-    valid = [True]
+    valid = VALID
 
     def entry_dirs():
         base = mem.store_backend.location
@@ -287,14 +364,17 @@ def main():
                         fh.write(src)
                 modname = "__main__" if ver.get("kind") == "main" else "verifmod"
 
+                defaults_ns = {n: dec(d) for n, _, d in vparams(sc, k) if d is not None and not is_literal(d)}
+
                 def load(name, fname):
-                    if ver.get("kind") == "method":
+                    if ver.get("kind") == "method" or (sc.get("picklable") and name != "__main__"):
                         # the instance is hashed (pickled) as part of the key: its class must be importable
                         mod = types.ModuleType(name)
+                        mod.__dict__["_DEFAULTS"] = defaults_ns
                         exec(compile(src, fname, "exec"), mod.__dict__)
                         sys.modules[name] = mod
                         return mod.__dict__
-                    ns_ = {"__name__": name}
+                    ns_ = {"__name__": name, "_DEFAULTS": defaults_ns}
                     exec(compile(src, fname, "exec"), ns_)
                     return ns_
                 if ver.get("kind") == "partial":
@@ -326,6 +406,31 @@ def main():
                 counts[k] = ns["_COUNT"]
                 wraps.pop(k, None)
                 res["o"] = "done"
+            elif kind == "rewrap":
+                # the wrapper goes through pickle / copy (as when it is sent to a worker): __getstate__ drops the
+                # timestamp and the code id; the copy replaces the original
+                import copy
+                import pickle as _p
+                k, how = ev[1], ev[2]
+                w = wraps[k]
+                if how == "pickle":
+                    w = _p.loads(_p.dumps(w))
+                elif how == "cloudpickle":
+                    from joblib.externals import cloudpickle
+                    w = _p.loads(cloudpickle.dumps(w))
+                elif how == "copy":
+                    w = copy.copy(w)
+                elif how == "deepcopy":
+                    w = copy.deepcopy(w)
+                elif how == "dump":          # for another process (loaded there with "load")
+                    with open(os.path.join(moddir, "wrapper_%s.pkl" % k), "wb") as fh:
+                        _p.dump(w, fh)
+                elif how == "load":
+                    with open(os.path.join(moddir, "wrapper_%s.pkl" % k), "rb") as fh:
+                        w = _p.load(fh)
+                    counts[k] = w.func.__globals__["_COUNT"]
+                wraps[k] = w
+                res["o"] = "skip"
             elif kind == "hotreload":
                 # the file of object k is edited in place and the new code object is installed into the EXISTING
                 # function object (what %autoreload does); the long-lived MemorizedFunc stays.  From now on the
@@ -356,7 +461,7 @@ def main():
             elif kind == "wrap":
                 k = ev[1]
                 wraps[k] = mem.cache(objs[k], ignore=list(sc["ignore"]),
-                                     cache_validation_callback=lambda md: valid[0])
+                                     cache_validation_callback=Validator())
                 res["o"] = "done"
                 res["func_id"] = wraps[k].func_id
             elif kind in ("call", "shelve", "check"):
@@ -446,7 +551,8 @@ def main():
         results.append(res)
     with open(job["refs"], "wb") as fh:
         pickle.dump(refs, fh)
-    sys.stdout.write(json.dumps(results) + "\n")
+    result_channel.write(json.dumps(results) + "\n")
+    result_channel.flush()
 
 
 if __name__ == "__main__":
